@@ -478,6 +478,12 @@ func report(verif, repo string, ps *PropSpec, tier string, seed int, results []*
 		os.WriteFile(filepath.Join(verif, "evidence", ps.ID+".json"), b, 0o644)
 	}
 	fmt.Printf("property %s tier %s: %d obligations, %d discharged, %d failed, %d vacuity canaries (%d failed), %.1fs (load %.1fs, gen %.1fs)\n", ps.ID, tier, obligations, discharged, len(failed), canaries, canaryFailed, time.Since(start).Seconds(), loadS, genS)
+	sort.SliceStable(results, func(i, j int) bool { return results[i].TimeS > results[j].TimeS })
+	for i := 0; i < 3 && i < len(results); i++ {
+		if results[i].TimeS > 1.0 {
+			fmt.Printf("  slow: %s %.1fs (%s)\n", results[i].Obl.Name, results[i].TimeS, results[i].Solver)
+		}
+	}
 	for _, rp := range reports {
 		for _, w := range rp.Warnings {
 			fmt.Printf("  warning %s: %s\n", rp.Key, w)
